@@ -140,7 +140,8 @@ META = (CALLS, STMTS, HANDLERS, TESTS)
 
 def walk_under(fn_node, decide):
     """Enumerate the executions of ``fn_node``'s body that are consistent with
-    ``decide(atom_text) -> True/False/None`` (None: explore both values, but the
+    ``decide(atom_text) -> True/False/None`` (a decide function carrying ``wants_env = True`` is called as
+    ``decide(atom_text, env, expr)`` and can read the statements executed so far from env[STMTS]; None: explore both values, but the
     same value every time the same atom is tested again while none of the names
     it mentions has been re-assigned).  Short-circuit evaluation is respected.
     Returns (evaluated, exits): ``evaluated`` maps id(node) -> (node, env) for every
@@ -245,7 +246,7 @@ def walk_under(fn_node, decide):
         if t in env:
             v = env[t]
             return [(env, (not v) if neg else v)]
-        d = decide(t)
+        d = decide(t, env, e) if getattr(decide, "wants_env", False) else decide(t)
         out = []
         for v in ([d] if d is not None else [True, False]):
             en = dict(env)
